@@ -62,6 +62,10 @@ def build(desc, poly=False):
     for si, sd in enumerate(desc['stages']):
         spec = copy.deepcopy(sd['spec'])
         spec.t0, spec.T = sd['t0'], sd['T']
+        if sd.get('pvals') and sd.get('clone_of') is None:
+            for p_ in spec.params:
+                if p_.name in sd['pvals']:
+                    p_.value = sd['pvals'][p_.name]
         if sd.get('clone_of') is not None:
             key = sd['clone_of']
             if key not in templates:
@@ -73,6 +77,8 @@ def build(desc, poly=False):
             b = copy.copy(bt)
             b.spec, b.cfg = spec, sd['cfg']
             b.ocp, b.stage = ocp, st
+            for nm, val in (sd.get('pvals') or {}).items():
+                st.set_value(b.psym[nm], float(val))          # value given on the clone only
         else:
             st = ocp.stage(t0=hv(sd['t0']), T=hv(sd['T']))
             b = declare(spec, sd['cfg'], poly=poly, ocp=ocp, stage=st)
@@ -130,7 +136,8 @@ def instances(tier, seed):
             stages = []
             for i in range(nclones):
                 h = hz[(n + i + 1) % len(hz)]
-                stages.append(dict(spec=tplspec, cfg=cfg, t0=h[0], T=h[1], clone_of='tpl'))
+                pv = {p_.name: Fr(5 + 2 * i, 4) for p_ in tplspec.params if p_.grid == ''}      # every clone gets its own parameter value
+                stages.append(dict(spec=tplspec, cfg=cfg, t0=h[0], T=h[1], clone_of='tpl', pvals=pv))
             stages.append(dict(spec=stage_model(rep + 1), cfg=cfgs[(n + 2) % len(cfgs)], t0=hz[0][0], T=hz[0][1], clone_of=None))
             coupling = [('cont', i, i + 1) for i in range(len(stages) - 1)] + [('wge', 0)]
             add(kind='clone', desc=dict(stages=stages, coupling=coupling, parent=[('w2',)]))
@@ -260,8 +267,21 @@ def run(item):
         xa, xb = list(inst.nlp.x0()), list(D.nlp.x0())
         if len(xa) != len(xb) or not all(close(float(a), float(c)) for a, c in zip(xa, xb)):
             V('clone:x0-differs', 'x0', 'starting points of cloned and directly declared OCP differ')
+        pa, pb = list(inst.nlp.pval()), list(D.nlp.pval())
+        if len(pa) != len(pb) or not all(close(float(a), float(c)) for a, c in zip(pa, pb)):
+            V('clone:p-differs', 'p', 'parameter values of the cloned OCP %s differ from the directly declared one %s (a value set on one clone leaked?)' % (pa, pb))
+        else:
+            ch.proved.append('clone parameter values == direct')
         tpl, bt = master.templates['tpl']
         spec_t = desc['stages'][0]['spec']
+        for p_ in spec_t.params:
+            if p_.grid == '' and p_.value is not None:
+                try:
+                    stored = float(ca.DM(tpl._param_vals[bt.psym[p_.name]]))
+                except Exception:
+                    stored = None
+                if stored is None or not close(stored, float(p_.value)):
+                    V('template-changed', 'template parameter %s' % p_.name, 'the value stored in the template changed from %s to %s after set_value on its clones' % (float(p_.value), stored))
         n_con = sum(len(v) for v in tpl._constraints.values())
         if len(tpl.states) != len(bt.xs) or n_con != len(spec_t.cons) or tpl._T != 1 or tpl._t0 != 0:
             V('template-changed', 'template', 'template content changed by cloning/transcription: states %d constraints %d T %s t0 %s' % (len(tpl.states), n_con, tpl._T, tpl._t0))
